@@ -112,6 +112,13 @@ theorem perfectly_correlated_maps_home (refs : List (List Rat)) (x : List Rat) (
 
 example : tallyIter [[1, 2, 4], [3, 1, 2]] [5, 7, 11] [0, 1, 2] = .ok (0, 1) := by decide +kernel
 
+/-- the guard is satisfiable: on the subset `[0, 1]` row 0 is not constant and
+    neither other row is perfectly correlated with it -/
+example : var (pick [0, 1] [1, 2, 4]) ≠ 0 ∧
+    corrSsq (pick [0, 1] [3, 1, 2]) (pick [0, 1] [1, 2, 4]) ≠ 1 ∧
+    corrSsq (pick [0, 1] [2, 2, 9]) (pick [0, 1] [1, 2, 4]) ≠ 1 ∧
+    ValidOrder (columns [8, 8, 6] [3, 0, 0] [3, 0, 0]).1 [1, 0] := by decide +kernel
+
 example : ∃ tally, tallyVotes [[1, 2, 4], [3, 1, 2], [2, 2, 9]] [1, 2, 4] [[0, 1], [0, 2], [0, 1, 2]]
       (fun _ _ => 1) = .ok tally ∧
     (chooseCell [8, 8, 6] tally.1 tally.2 3 2 [1, 0]).toOption.map
